@@ -25,7 +25,14 @@ def run_sim(p, ctx, spec=None, inject=None, want=PHASES, hprio=None):
     obs = Observer(M, inject=inject, want=want)
     with numpy_stub(ctx.symbolic), obs.installed(), warnings.catch_warnings():
         warnings.simplefilter("ignore")
-        ok, r = ctx.call(M.project.simulate, **sim_kwargs(M))
+        if M.run.get("backward"):
+            # the observed call is backward_simulate() on a model WITHOUT dependencies (reversing nothing): every step of the inner run must
+            # obey the same allocation rules as a forward run with the same arguments; logs are left in simulated order
+            assert not M.edges, "run.backward is only meaningful for the oracles on dependency-free members"
+            ok, r = ctx.call(M.project.backward_simulate, reverse_log_information=False, **sim_kwargs(M))
+            ctx.cover("run:backward")
+        else:
+            ok, r = ctx.call(M.project.simulate, **sim_kwargs(M))
     M.obs = obs
     M.exc = None if ok else r
     if not ok:
